@@ -133,8 +133,9 @@ class Result(object):
         ev = dict(property_id=self.prop, tier=tier(), seed=seed(), level=self.level, coverage=cov,
                   assumptions=self.assumptions, wall_s=round(wall, 2),
                   violations=len(self.violations))
-        os.makedirs(os.path.join(VERIF, "evidence"), exist_ok=True)
-        with open(os.path.join(VERIF, "evidence", self.prop + ".json"), "w") as f:
+        out_dir = os.environ.get("VERIF_OUT", VERIF)       # scratch output root for mutant runs (tools/seeded_status.py)
+        os.makedirs(os.path.join(out_dir, "evidence"), exist_ok=True)
+        with open(os.path.join(out_dir, "evidence", self.prop + ".json"), "w") as f:
             json.dump(ev, f, indent=1, sort_keys=True, default=str)
         for k in self.known:
             print("KNOWN-FINDING: property=%s %s" % (self.prop, k.get("what", k.get("id"))))
@@ -159,7 +160,7 @@ class Result(object):
 
 
 def write_replay(prop, harness, shape, inputs, label, engine="pysym", extra=None):
-    d = os.path.join(VERIF, "replays")
+    d = os.path.join(os.environ.get("VERIF_OUT", VERIF), "replays")
     os.makedirs(d, exist_ok=True)
     body = dict(property=prop, harness=harness, shape=shape, inputs=inputs, label=label, engine=engine)
     if extra:
